@@ -360,11 +360,18 @@ def r30_cli_flow(ctx):
             lv = expand_values(init.node, az, ())
             zero = [c for v, c in lv if U(v) == "(0, 0)"]
             rest = [c for v, c in lv if U(v) != "(0, 0)"]
+            def _utc(c, want):
+                for t_, pol in c:
+                    while isinstance(t_, ast.UnaryOp) and isinstance(
+                            t_.op, ast.Not):
+                        t_, pol = t_.operand, not pol
+                    if isinstance(t_, (ast.Name, ast.Attribute)) and \
+                            U(t_).endswith("utc_mode") and pol == want:
+                        return True
+                return False
             utc = bool(zero) and bool(rest) and all(
-                any(U(t_).endswith("utc_mode") and pol for t_, pol in c)
-                for c in zero) and all(
-                any(U(t_).endswith("utc_mode") and not pol for t_, pol in c)
-                for c in rest)
+                _utc(c, True) for c in zero) and all(
+                    _utc(c, False) for c in rest)
     dp = oper.methods["date_parse"]
     # the conversion stands on every path to the returned pair: its
     # statement is a preceding sibling of (an ancestor of) every such return
@@ -399,9 +406,33 @@ def r30_cli_flow(ctx):
                 "parse_" in U(n.value.func) and "_args" in U(n.value.func) \
                 and isinstance(n.targets[0], ast.Name):
             pargs = n.targets[0].id
+    cross = []
     for n in walk_no_nested(pa.node):
         if isinstance(n, ast.Assign) and "replace('\\\\', '')" in U(n.value):
-            strips[U(n.targets[0]).replace(pargs + ".", "args.")] = True
+            tgt = U(n.targets[0])
+            # the list that is unescaped is the list that is assigned
+            srcs = set()
+            for x in ast.walk(n.value):
+                for g in getattr(x, "generators", ()):
+                    it = g.iter
+                    if isinstance(it, ast.Name):
+                        # a temporary: what it was last bound to before
+                        prev = [a for a in walk_no_nested(pa.node)
+                                if isinstance(a, ast.Assign) and any(
+                                    isinstance(t_, ast.Name) and
+                                    t_.id == it.id for t_ in a.targets) and
+                                npos(a) < npos(n)]
+                        if prev:
+                            it = max(prev, key=npos).value
+                    srcs.add(U(it))
+            if srcs and tgt not in srcs:
+                cross.append("%s from %s" % (tgt, sorted(srcs)))
+                continue
+            strips[tgt.replace(pargs + ".", "args.")] = True
+    rep.check(not cross, rule, ctx.fkey(pa, None, "escape-same-list"),
+              pa.loc(), "each offset list is unescaped from itself",
+              "parse_args rebuilds %s: the offsets of one date-time are "
+              "replaced by those of the other" % "; ".join(cross), P)
     strip_fd = any("replace('\\\\', '')" in U(n)
                    for n in walk_no_nested(fd.node))
     rep.check(esc and strips.get("args.offsets1") and
